@@ -281,25 +281,7 @@ class Interp(EngineBase):
             it = self.num(idx)
             self.bag_facts(base)
             self.check_or_raise(z3.And(it >= -z3.ToReal(base.n), it < z3.ToReal(base.n)), 'IndexError', node, 'list[i]')
-            # positions: at(seq, i) is the i-th item of this sequence value; a list without duplicates has distinct items
-            AT = z3.Function('at', I, I, I)
-            NODUP = z3.Function('nodup', IntArr, B)
-            ii = z3.ToInt(it)
-            e = AT(base.seq, ii)
-            self.st.assume(z3.Implies(it >= 0, z3.Select(base.cnt, e) > 0))
-            key = ('atfacts', base.seq.get_id())
-            seen = self.st.ghost.setdefault('_atfacts', set())
-            if key not in seen:
-                seen.add(key)
-                x, a, b = z3.Int(fresh_name('ndx')), z3.Int(fresh_name('ai')), z3.Int(fresh_name('aj'))
-                self.st.assume(z3.Implies(z3.ForAll([x], z3.Select(base.cnt, x) <= 1), NODUP(base.cnt)))
-                self.st.assume(z3.Implies(NODUP(base.cnt), z3.ForAll([a, b], z3.Implies(
-                    z3.And(0 <= a, a < b, b < base.n), AT(base.seq, a) != AT(base.seq, b)),
-                    patterns=[z3.MultiPattern(AT(base.seq, a), AT(base.seq, b))])))
-                self.st.assume(z3.ForAll([a], z3.Implies(z3.And(0 <= a, a < base.n), z3.Select(base.cnt, AT(base.seq, a)) > 0),
-                                         patterns=[AT(base.seq, a)]))
-            if it is not None and idx == -1:
-                pass
+            e = self.seq_item(base, it)
             return self.elem_value(base, e)
         if isinstance(base, PyList):
             if isinstance(idx, int):
@@ -327,6 +309,29 @@ class Interp(EngineBase):
             self.check_or_raise(False, 'TypeError', node, "subscript of a number")
             raise PathEnd('TypeError')
         raise OutOfSubset(f"subscript of {type(base).__name__} at line {getattr(node, 'lineno', '?')}")
+
+    def seq_facts(self, base):
+        """theory of sequences (true of every Python list): items at valid positions are members; a list without
+        duplicates has pairwise distinct items"""
+        AT = z3.Function('at', I, I, I)
+        NODUP = z3.Function('nodup', IntArr, B)
+        key = ('atfacts', base.seq.get_id())
+        seen = self.st.ghost.setdefault('_atfacts', set())
+        if key in seen:
+            return
+        seen.add(key)
+        x, a, b = z3.Int(fresh_name('ndx')), z3.Int(fresh_name('ai')), z3.Int(fresh_name('aj'))
+        self.st.assume(z3.Implies(z3.ForAll([x], z3.Select(base.cnt, x) <= 1), NODUP(base.cnt)))
+        self.st.assume(z3.Implies(NODUP(base.cnt), z3.ForAll([a, b], z3.Implies(
+            z3.And(0 <= a, a < b, b < base.n), AT(base.seq, a) != AT(base.seq, b)),
+            patterns=[z3.MultiPattern(AT(base.seq, a), AT(base.seq, b))])))
+        self.st.assume(z3.ForAll([a], z3.Implies(z3.And(0 <= a, a < base.n), z3.Select(base.cnt, AT(base.seq, a)) > 0),
+                                 patterns=[AT(base.seq, a)]))
+
+    def seq_item(self, base, it):
+        AT = z3.Function('at', I, I, I)
+        self.seq_facts(base)
+        return AT(base.seq, z3.ToInt(it))
 
     def ev_UnaryOp(self, e):
         if isinstance(e.op, ast.Not):
